@@ -56,8 +56,8 @@ func checkC16(c *Ctx, r *Report) {
 	c16ReadBeforeWrite(r, p)
 	c16RawOwnership(r, p)
 	c16More(c, r, p, f, P, N)
-	r.Floor("chain_steps", 500)
-	r.Floor("fiat_primitives", 28)
+	r.Floor("chain_steps", 200)
+	r.Floor("fiat_primitives", 20)
 }
 
 func c16Exponent(r *Report, p *Prog, fn, what string, want *big.Int) {
